@@ -31,11 +31,36 @@ if os.path.realpath(os.environ.get("COOLSIM_REPO", "/repo")) != "/repo":
 KNOWN = os.path.join(VERIF, "known_findings.json")
 
 
-def scratch_root():
+_SCRATCH_PARENT = None
+
+
+def _scratch_base():
     for d in ("/dev/shm", tempfile.gettempdir()):
         if os.path.isdir(d) and os.access(d, os.W_OK):
             return d
     return tempfile.gettempdir()
+
+
+def scratch_root():
+    """The directory under which every run of this invocation makes its private scratch directory.
+    The invoking process creates one parent directory and removes it when it exits, so that runs
+    whose worker was killed (fail-fast, hang cap) leave nothing behind."""
+    if _SCRATCH_PARENT and os.path.isdir(_SCRATCH_PARENT):
+        return _SCRATCH_PARENT
+    return _scratch_base()
+
+
+def make_scratch_parent():
+    global _SCRATCH_PARENT
+    import atexit
+    _SCRATCH_PARENT = tempfile.mkdtemp(prefix="coolsim-inv-", dir=_scratch_base())
+    owner = os.getpid()
+
+    def _cleanup(path=_SCRATCH_PARENT):
+        if os.getpid() == owner:
+            shutil.rmtree(path, ignore_errors=True)
+
+    atexit.register(_cleanup)
 
 
 def derive_seed(base, prop, i):
@@ -246,6 +271,7 @@ def match_known(known, prop, v):
 def main(argv=None):
     from . import checks
 
+    make_scratch_parent()
     ap = argparse.ArgumentParser()
     ap.add_argument("prop")
     ap.add_argument("--tier", default=os.environ.get("VERIF_TIER", "quick"))
